@@ -330,7 +330,10 @@ fn yaml_examples<'a>(y: &'a serde_yaml::Value, name: &str) -> &'a [serde_yaml::V
         .unwrap_or(&[])
 }
 
-fn validate_part(w: &mut Sx, rule: &Rule) {
+/// Outcome of `validate()` on a rule, cross-checked against `matches()` on each example:
+/// "ok" | "err I ..." | "panic" | "inconsistent" (validate() disagrees with matches(), or its
+/// message does not name exactly the failing examples).
+fn validate_outcome(rule: &Rule) -> String {
     // Indices of failing examples, by re-running `matches` on each of them exactly as
     // `Rule::validate` does (a non-mapping example is a failure).
     let indices = guarded(|| {
@@ -357,23 +360,36 @@ fn validate_part(w: &mut Sx, rule: &Rule) {
         }
         bad
     });
-    let own = guarded(|| rule.validate().is_ok());
-    w.head("validate");
+    // Some(None) = Ok(true); Some(Some(n)) = Err naming n examples
+    let own = guarded(|| match rule.validate() {
+        Ok(_) => None,
+        Err(e) => {
+            let msg = format!("{}", e);
+            Some(msg.matches("true positive check").count() + msg.matches("true negative check").count())
+        }
+    });
     match (indices, own) {
-        (Some(bad), Some(ok)) => {
-            if ok != bad.is_empty() {
-                w.atom("inconsistent");
+        (Some(bad), Some(named)) => {
+            let ok = named.is_none();
+            if ok != bad.is_empty() || (!ok && named != Some(bad.len())) {
+                "inconsistent".to_string()
             } else if ok {
-                w.atom("ok");
+                "ok".to_string()
             } else {
-                w.atom("err");
+                let mut s = String::from("err");
                 for i in bad {
-                    w.int(i);
+                    s.push_str(&format!(" {}", i));
                 }
+                s
             }
         }
-        _ => w.atom("panic"),
+        _ => "panic".to_string(),
     }
+}
+
+fn validate_part(w: &mut Sx, rule: &Rule) {
+    w.head("validate");
+    w.atom(&validate_outcome(rule));
     w.close();
 }
 
@@ -446,12 +462,18 @@ fn case_rule(id: &str, v: &serde_json::Value, ctx: &mut Ctx) -> Option<Out> {
         Some(Err(_)) => "err",
         Some(Ok(_)) => "ok",
     };
-    let extra = format!("(x (fromstr {}))", fromstr);
+    let mut extra = format!("(x (fromstr {})", fromstr);
+    let vsw: Vec<u8> = v
+        .get("vsw")
+        .and_then(|a| a.as_array())
+        .map(|a| a.iter().filter_map(|n| n.as_u64()).filter(|n| *n <= 15).map(|n| n as u8).collect())
+        .unwrap_or_default();
     let rule = match guarded(|| Rule::from_value(y.clone())) {
         None => {
             w.head("load");
             w.atom("panic");
             w.close();
+            extra.push(')');
             w.atom(&extra);
             w.close();
             return Some((w.finish(), model));
@@ -460,12 +482,31 @@ fn case_rule(id: &str, v: &serde_json::Value, ctx: &mut Ctx) -> Option<Out> {
             w.head("load");
             w.atom("err");
             w.close();
+            extra.push(')');
             w.atom(&extra);
             w.close();
             return Some((w.finish(), model));
         }
         Some(Ok(r)) => r,
     };
+    let mut extra = extra;
+    for n in &vsw {
+        let n = *n;
+        let optimised = guarded(|| {
+            rule.clone().optimise(Optimisations {
+                coalesce: n & 1 != 0,
+                shake: n & 2 != 0,
+                rewrite: n & 4 != 0,
+                matrix: n & 8 != 0,
+            })
+        });
+        let out = match optimised {
+            None => "panic".to_string(),
+            Some(r) => validate_outcome(&r),
+        };
+        extra.push_str(&format!(" (vopt {} {})", n, out));
+    }
+    extra.push(')');
     w.head("load");
     w.atom("ok");
     w.close();
